@@ -11,7 +11,7 @@ lower_flat / lift_flat / the flat-variant coercion table):
   lower char : its Unicode scalar value as i32
   lower bool : 0 / 1
   lift uN/sN from an ARBITRARY i32/i64 : low N bits, with the type's signedness
-  lift bool : 0 -> false, 1 -> true required; other inputs: either `!= 0` or a trap
+  lift bool : 0 -> false, 1 -> true; any other non-zero value -> true (spec) or a trap (abi.rs doc); never false
   lift char : identity on valid scalar values (others may trap)
   joined variant slot, lowering : payload core value zero-extended to the slot
   joined variant slot, lifting  : low bits of the slot (wrap), then reinterpret
